@@ -100,4 +100,25 @@ DESCRIBE = {
         "assumptions": _COMMON_ASSUME + ["minimality and idempotence are judged in exact arithmetic on polynomial curves only (float accept/refuse decisions near the tolerance are rounding dependent; the statement's minimality clause is about polynomial curves)", 'environment faults are disarmed while a composite cleaning loop runs (DESIGN section 2); cleaning is exercised with invalid tolerances as refused requests', 'twin expectation is asserted only while both twins still denote the common start function (otherwise dropped and counted under expectation_dropped)'],
         "expected_probes": ['clean-reached-minimal-form', 'clean-removed-something', 'twin-compared'],
     },
+    "C15": {
+        "budgets": {"quick": (5000, 240), "thorough": (300000, 3300)},
+        "rule": ("one evaluation = one seeded history of 3-22 public Curve operations (all mutators incl. setters, update and the fitters; evaluation, split, "
+                 "join, curve and scalar arithmetic, ==, copies, fraction, Derivate, Integrate, Projection, Intersection) on a world of 1-6 curves created under "
+                 "seeded aliasing layouts (independent, same KnotVector object, same KnotVector and same point objects, copy, deepcopy), with one point profile per "
+                 "run (Fraction / float scalars, object / float64 / int64 ndarrays, SimPoint full / minimal / nofloat / bounded / inplace); ~0-55% of steps carry an invalid "
+                 "argument and value-seam / callable faults fire wherever the arithmetic meets an unsupported combination; after every step I1 consistency+evaluability, "
+                 "I2 failure atomicity, I3 operand and I4 bystander non-interference, I5 caller data are checked; non-trivial = at least one successful transition AND one "
+                 "fired fault; distinct = distinct event-log digest"),
+        "real": REAL_ALL,
+        "stubs": ["SimPoint control-point types and the per-run fault controller (sim/seams.py)", "user callables for fit_function / Integrate that raise at a seeded call",
+                  "caller-side containers (lists, KnotVector objects) whose content is re-checked after every step"],
+        "assumptions": _COMMON_ASSUME + [
+            "faults are deterministic functions of the operands (DESIGN section 2): transient 'k-th call fails' faults and asynchronous faults are not injected here",
+            "environment faults are disarmed while a composite cleaning loop (knot_clean / degree_clean / clean) runs; those are exercised with invalid arguments only",
+            "invalid weights are generated only as a sign change or a zero at an end (the classes the library's root detector is specified for)",
+            "there is no function-level oracle here (C04-C09): only that evaluation does not raise and that states are consistent / unchanged",
+            "Projection is exercised on float polylines only (its Newton search has no step bound), Intersection on small Bezier/spline pairs",
+        ],
+        "expected_probes": ["layout-shared-kv", "layout-shared-all", "layout-copy", "layout-deepcopy", "refusal-in-aliased-world"],
+    },
 }
